@@ -14,24 +14,30 @@
 #include <sys/time.h>
 using namespace verif;
 
-// ------------------------------------------------------------------ per-case process isolation
-// The worker forks one short-lived child per case.  The child reports through a shared record
-// buffer; the worker forwards the records to the framework's Ctx.  A child killed by the CPU
-// timer is a hang, one killed by another signal a crash; both are reported as violations of
-// the case (so they land in cs.bad and never cost the framework's serial suspect re-run).
+// ------------------------------------------------------------------ batched process isolation
+// fork() costs >100 ms on the loaded verification host, so a worker does not fork per case: it
+// forks one sub-worker per *batch* of its next B indices.  The sub-worker arms a CPU-time limit
+// before every case and reports through a shared record buffer (records are tagged with the
+// case index).  When it dies, the case in progress is re-run alone with a 4x larger limit; if it
+// dies again it is reported as hang / crash (a violation of that case, so it lands in cs.bad and
+// never costs the framework's serial suspect re-run), and a new sub-worker continues after it.
 struct RecBuf {
     volatile size_t len;
-    char data[(1 << 20) - 16];
+    volatile long long cur;  // index in progress
+    volatile long long done; // number of batch entries finished
+    char data[(8 << 20) - 64];
 };
 static RecBuf *g_rb = nullptr;
 static bool g_in_child = false;
-static void rb_put(char type, const std::string &a, const std::string &b)
+static void rb_put(char type, long long idx, const std::string &a, const std::string &b)
 {
-    size_t need = 1 + 4 + a.size() + 4 + b.size();
+    size_t need = 1 + 8 + 4 + a.size() + 4 + b.size();
     if (g_rb->len + need > sizeof(g_rb->data))
         return;
     char *p = g_rb->data + g_rb->len;
     *p++ = type;
+    memcpy(p, &idx, 8);
+    p += 8;
     uint32_t n = a.size();
     memcpy(p, &n, 4);
     p += 4;
@@ -43,39 +49,69 @@ static void rb_put(char type, const std::string &a, const std::string &b)
     memcpy(p, b.data(), n);
     g_rb->len += need;
 }
-struct Rep { // reporting facade usable both in the child and directly
+struct Rep { // reporting facade of one case
     Ctx &c;
+    long long idx;
     void violation(const std::string &sig, const std::string &desc)
     {
         if (g_in_child)
-            rb_put('V', sig, desc);
+            rb_put('V', idx, sig, desc);
         else
             c.violation(sig, desc);
     }
     void outcome(const std::string &o)
     {
         if (g_in_child)
-            rb_put('O', o, "");
+            rb_put('O', idx, o, "");
         else
             c.outcome(o);
     }
     void sample(const std::string &s)
     {
         if (g_in_child)
-            rb_put('S', s, "");
+            rb_put('S', idx, s, "");
         else
             c.sample(s);
     }
 };
 static double CPU_LIMIT_S = 0.15;
-// returns "" when the child ended normally, else "hang" / "crash:<signal>" / "exit:<n>"
-static std::string isolated(Ctx &c, const std::function<void(Rep &)> &f)
+static void arm_cpu_limit(double s)
 {
-    if (!g_rb)
-        g_rb = (RecBuf *)mmap(nullptr, sizeof(RecBuf), PROT_READ | PROT_WRITE, MAP_SHARED | MAP_ANONYMOUS, -1, 0);
+    struct itimerval it;
+    memset(&it, 0, sizeof it);
+    it.it_value.tv_sec = (long)s;
+    it.it_value.tv_usec = (long)((s - (long)s) * 1e6);
+    setitimer(ITIMER_PROF, &it, nullptr); // CPU time: insensitive to machine load
+}
+struct Rec {
+    char type;
+    std::string a, b;
+};
+struct BatchState {
+    std::string name;
+    std::map<long long, std::vector<Rec>> recs;
+    std::map<long long, std::string> died;
+    std::set<long long> have;
+};
+static BatchState g_bs;
+
+// run the cases L[from..] in one sub-worker; returns "" if all finished, else the death class of
+// the case L[*done]
+static std::string sub_worker(Ctx &c, const std::vector<long long> &L, size_t from, double limit,
+                              const std::function<void(long long, Rep &)> &runcase, size_t *done)
+{
     g_rb->len = 0;
+    g_rb->done = from;
+    g_rb->cur = -1;
     fflush(c.out);
-    pid_t p = fork();
+    fflush(stdout);
+    pid_t p = -1;
+    for (int attempt = 0; attempt < 200 && (p = fork()) < 0; attempt++)
+        usleep(20000);
+    if (p < 0) {
+        fprintf(stderr, "C27: fork failed: %s\n", strerror(errno));
+        abort();
+    }
     if (p == 0) {
         g_in_child = true;
         struct rlimit rl;
@@ -85,52 +121,119 @@ static std::string isolated(Ctx &c, const std::function<void(Rep &)> &f)
         rl.rlim_cur = rl.rlim_max = 0;
         setrlimit(RLIMIT_CORE, &rl);
         signal(SIGPROF, SIG_DFL);
-        signal(SIGALRM, SIG_DFL);
-        struct itimerval it;
-        memset(&it, 0, sizeof it);
-        it.it_value.tv_sec = (long)CPU_LIMIT_S;
-        it.it_value.tv_usec = (long)((CPU_LIMIT_S - (long)CPU_LIMIT_S) * 1e6);
-        setitimer(ITIMER_PROF, &it, nullptr); // CPU time: insensitive to machine load
-        it.it_value.tv_sec = 20;
-        it.it_value.tv_usec = 0;
-        setitimer(ITIMER_REAL, &it, nullptr); // wall-clock backstop
-        Rep r{c};
-        f(r);
+        for (size_t k = from; k < L.size(); k++) {
+            g_rb->cur = L[k];
+            arm_cpu_limit(limit);
+            Rep r{c, L[k]};
+            runcase(L[k], r);
+            arm_cpu_limit(0);
+            g_rb->done = k + 1;
+        }
         _exit(0);
     }
     int st = 0;
     while (waitpid(p, &st, 0) < 0 && errno == EINTR) {
     }
-    // forward the records
-    Rep direct{c};
     size_t off = 0, len = g_rb->len;
-    while (off + 9 <= len) {
-        char t = g_rb->data[off++];
+    while (off + 17 <= len) {
+        Rec r;
+        r.type = g_rb->data[off++];
+        long long idx;
+        memcpy(&idx, g_rb->data + off, 8);
+        off += 8;
         uint32_t n;
         memcpy(&n, g_rb->data + off, 4);
         off += 4;
-        std::string a(g_rb->data + off, n);
+        r.a.assign(g_rb->data + off, n);
         off += n;
         memcpy(&n, g_rb->data + off, 4);
         off += 4;
-        std::string b(g_rb->data + off, n);
+        r.b.assign(g_rb->data + off, n);
         off += n;
-        if (t == 'V')
-            c.violation(a, b);
-        else if (t == 'O')
-            c.outcome(a);
-        else if (t == 'S')
-            c.sample(a);
+        g_bs.recs[idx].push_back(r);
     }
+    *done = g_rb->done;
+    if (WIFEXITED(st) && WEXITSTATUS(st) == 0)
+        return "";
     if (WIFSIGNALED(st)) {
         int sg = WTERMSIG(st);
-        if (sg == SIGPROF || sg == SIGALRM)
+        if (sg == SIGPROF)
             return "hang";
         return std::string("crash:") + (sg == SIGSEGV ? "SIGSEGV" : sg == SIGABRT ? "SIGABRT" : sg == SIGFPE ? "SIGFPE" : strsignal(sg));
     }
-    if (WIFEXITED(st) && WEXITSTATUS(st) != 0)
-        return "exit:" + std::to_string(WEXITSTATUS(st));
-    return "";
+    return "exit:" + std::to_string(WEXITSTATUS(st));
+}
+
+enum { K_HANG_SLOT = 8, K_CRASH_SLOT = 9 };
+// body of a case set: executes case i (computing a whole batch when i is not cached yet)
+static void batched(Ctx &c, const CaseSet &cs, long long i, const std::function<void(long long, Rep &)> &runcase,
+                    const std::function<std::string(long long)> &cls)
+{
+    if (!g_rb) {
+        g_rb = (RecBuf *)mmap(nullptr, sizeof(RecBuf), PROT_READ | PROT_WRITE, MAP_SHARED | MAP_ANONYMOUS, -1, 0);
+    }
+    if (g_bs.name != cs.name) {
+        g_bs = BatchState();
+        g_bs.name = cs.name;
+    }
+    if (!g_bs.have.count(i)) {
+        long long J = cs.jobs > 0 ? cs.jobs : opts().jobs;
+        if (cs.n < 64)
+            J = 1;
+        J = std::min<long long>(J, std::max<long long>(1, cs.n));
+        size_t B = replaying() ? 1 : 128;
+        std::vector<long long> L;
+        for (long long k = i; k < cs.n && L.size() < B; k += J)
+            L.push_back(k);
+        size_t pos = 0;
+        while (pos < L.size()) {
+            size_t done = pos;
+            std::string oc = sub_worker(c, L, pos, CPU_LIMIT_S, runcase, &done);
+            if (oc.empty()) {
+                pos = L.size();
+                break;
+            }
+            // confirm alone with a larger limit (a death may be caused by an earlier case of the batch
+            // or by a slow first execution)
+            long long victim = L[done];
+            g_bs.recs.erase(victim);
+            size_t d2 = 0;
+            std::string oc2 = sub_worker(c, {victim}, 0, 4 * CPU_LIMIT_S, runcase, &d2);
+            if (!oc2.empty()) {
+                g_bs.recs.erase(victim);
+                g_bs.died[victim] = oc2;
+            } else if (getenv("C27_DEBUG"))
+                fprintf(stderr, "[iso] %lld %s in batch but clean when alone\n", victim, oc.c_str());
+            pos = done + 1;
+        }
+        for (auto k : L)
+            g_bs.have.insert(k);
+    }
+    auto it = g_bs.recs.find(i);
+    if (it != g_bs.recs.end()) {
+        for (auto &r : it->second) {
+            if (r.type == 'V')
+                c.violation(r.a, r.b);
+            else if (r.type == 'O')
+                c.outcome(r.a);
+            else
+                c.sample(r.a);
+        }
+        g_bs.recs.erase(it);
+    }
+    auto dt = g_bs.died.find(i);
+    if (dt != g_bs.died.end()) {
+        const std::string &oc = dt->second;
+        std::string k = cls(i);
+        c.count(oc == "hang" ? K_HANG_SLOT : K_CRASH_SLOT);
+        c.outcome(oc + ":" + k);
+        c.violation(oc + ":" + k, (cs.desc ? cs.desc(i) : "") + ": "
+                                      + (oc == "hang" ? "did not terminate within the CPU limit" : "process died, " + oc));
+        if (getenv("C27_DEBUG"))
+            fprintf(stderr, "[iso] %lld %s %s\n", i, oc.c_str(), k.c_str());
+        g_bs.died.erase(dt);
+    }
+    g_bs.have.erase(i);
 }
 
 // ------------------------------------------------------------------ test points
@@ -378,7 +481,7 @@ enum {
     K_CONTAINS_SYMBOLIC,
     K_CONTAINS_THROW,
     K_EXTRA_POINTS,
-    K_HANG,
+    K_HANG, // = K_HANG_SLOT
     K_CRASH,
     K_F_JUDGED,
     K_F_REFUSED,
@@ -858,17 +961,6 @@ static void check_func(Rep &rp, Ctx &c, int fn, int is)
     c.count(judged ? K_F_JUDGED : K_F_UNDECIDED);
 }
 
-// run one case in isolation and turn hang/crash into a classed violation
-static void guarded(Ctx &c, const std::string &cls, const std::string &desc, const std::function<void(Rep &)> &f)
-{
-    std::string oc = isolated(c, f);
-    if (oc.empty())
-        return;
-    c.count(oc == "hang" ? K_HANG : K_CRASH);
-    c.outcome(oc + ":" + cls);
-    c.violation(oc + ":" + cls, desc + ": " + (oc == "hang" ? "did not terminate within the CPU limit" : "process died, " + oc));
-}
-
 int main(int argc, char **argv)
 {
     init(argc, argv, "C27");
@@ -958,9 +1050,32 @@ int main(int argc, char **argv)
     l1.body = [&](long long i, Ctx &c) {
         int op, ia, ib;
         dec1(i, op, ia, ib);
-        guarded(c, crash_cls(op, ia, ib), l1.desc(i), [&](Rep &rp) { check_transition(rp, c, op, ia, ib); });
+        (void)op;
+        batched(
+            c, l1, i,
+            [&](long long k, Rep &rp) {
+                int o, a, b;
+                dec1(k, o, a, b);
+                check_transition(rp, c, o, a, b);
+            },
+            [&](long long k) {
+                int o, a, b;
+                dec1(k, o, a, b);
+                return crash_cls(o, a, b);
+            });
     };
-    run_cases(l1);
+    {
+        // when a case of a later case set is replayed, S1 must be rebuilt exactly: run L1 for real
+        long long keep = opts().only_index;
+        bool later = replaying() && opts().only_check != l1.name;
+        if (later)
+            opts().only_index = -1;
+        run_cases(l1);
+        if (later)
+            opts().only_index = keep;
+        else if (replaying())
+            return R.finish();
+    }
 
     // S1 from the transitions that survived (no violation, crash or hang)
     auto short_recipe = [&](int op, int ia, int ib) {
@@ -972,6 +1087,8 @@ int main(int argc, char **argv)
             continue;
         int op, ia, ib;
         dec1(i, op, ia, ib);
+        if (getenv("C27_DEBUG"))
+            fprintf(stderr, "[S1] %lld %s\n", i, l1.desc(i).c_str());
         try {
             SS.add(apply(op, SS.S[ia].e, SS.S[ib].e), short_recipe(op, ia, ib), 1);
         } catch (std::exception &) {
@@ -990,7 +1107,11 @@ int main(int argc, char **argv)
     fc.desc = [&](long long i) { return std::string(FNN[i % NFN]) + "(" + SS.S[i / NFN].recipe + ")"; };
     fc.body = [&](long long i, Ctx &c) {
         int fn = i % NFN, is = i / NFN;
-        guarded(c, std::string(FNN[fn]) + "(" + kind_deep(*SS.S[is].e) + ")", fc.desc(i), [&](Rep &rp) { check_func(rp, c, fn, is); });
+        (void)fn;
+        (void)is;
+        batched(
+            c, fc, i, [&](long long k, Rep &rp) { check_func(rp, c, k % NFN, k / NFN); },
+            [&](long long k) { return std::string(FNN[k % NFN]) + "(" + kind_deep(*SS.S[k / NFN].e) + ")"; });
     };
     if (!past_deadline()) {
         run_cases(fc);
@@ -1035,7 +1156,19 @@ int main(int argc, char **argv)
     l2.body = [&](long long i, Ctx &c) {
         int op, ia, ib;
         dec2(i, op, ia, ib);
-        guarded(c, crash_cls(op, ia, ib), l2.desc(i), [&](Rep &rp) { check_transition(rp, c, op, ia, ib); });
+        (void)op;
+        batched(
+            c, l2, i,
+            [&](long long k, Rep &rp) {
+                int o, a, b;
+                dec2(k, o, a, b);
+                check_transition(rp, c, o, a, b);
+            },
+            [&](long long k) {
+                int o, a, b;
+                dec2(k, o, a, b);
+                return crash_cls(o, a, b);
+            });
     };
     if (!past_deadline()) {
         run_cases(l2);
@@ -1073,36 +1206,43 @@ int main(int argc, char **argv)
             return std::string(op ? "set_intersection" : "set_union") + "({" + SS.S[a].recipe + ", " + SS.S[b].recipe + ", "
                    + SS.S[cc].recipe + "})";
         };
-        l3.body = [&](long long i, Ctx &c) {
+        auto n3cls = [&](long long k) {
             int op, a, b, cc;
-            dec3(i, op, a, b, cc);
-            if (a > b || b > cc) { // set_set is unordered: one representative per multiset
+            dec3(k, op, a, b, cc);
+            return std::string(op ? "set_intersection" : "set_union") + "{" + kind(*SS.S[a].e) + "," + kind(*SS.S[b].e) + ","
+                   + kind(*SS.S[cc].e) + "}";
+        };
+        auto n3case = [&](long long k, Rep &rp, Ctx &c) {
+            int op, a, b, cc;
+            dec3(k, op, a, b, cc);
+            if (a > b || b > cc) // set_set is unordered: one representative per multiset
                 return;
-            }
             if (a == b || b == cc)
                 c.count(K_NARY_DUP);
             std::string ks = kind(*SS.S[a].e) + "," + kind(*SS.S[b].e) + "," + kind(*SS.S[cc].e);
             std::string fnm = op ? "set_intersection" : "set_union";
-            guarded(c, fnm + "{" + ks + "}", l3.desc(i), [&](Rep &rp) {
-                c.eval();
-                RCP<const Set> A = S_(SS.S[a].e), B = S_(SS.S[b].e), C = S_(SS.S[cc].e), r;
-                try {
-                    r = op ? set_intersection({A, B, C}) : set_union({A, B, C});
-                } catch (SymEngineException &x) {
-                    c.count(K_REFUSED);
-                    rp.outcome(std::string("throw:") + x.what());
-                    return;
-                } catch (std::exception &x) {
-                    rp.violation("exception:" + fnm + "{" + ks + "}", l3.desc(i) + " threw non-library exception " + x.what());
-                    return;
-                }
-                c.nontrivial();
-                rp.outcome(fnm + "{3}->" + kind_deep(*r));
-                judge(rp, c, fnm, "{" + ks + "}", l3.desc(i), r, {A.get(), B.get(), C.get()}, [&](const Pt &p) {
-                    int x = op ? I_F : U_F;
-                    return sem(x, sem(x, memb(*A, p), memb(*B, p)), memb(*C, p));
-                });
+            c.eval();
+            RCP<const Set> A = S_(SS.S[a].e), B = S_(SS.S[b].e), C = S_(SS.S[cc].e), r;
+            try {
+                r = op ? set_intersection({A, B, C}) : set_union({A, B, C});
+            } catch (SymEngineException &x) {
+                c.count(K_REFUSED);
+                rp.outcome(std::string("throw:") + x.what());
+                return;
+            } catch (std::exception &x) {
+                rp.violation("exception:" + fnm + "{" + ks + "}", l3.desc(k) + " threw non-library exception " + x.what());
+                return;
+            }
+            c.nontrivial();
+            rp.outcome(fnm + "{3}->" + kind_deep(*r));
+            judge(rp, c, fnm, "{" + ks + "}", l3.desc(k), r, {A.get(), B.get(), C.get()}, [&](const Pt &p) {
+                int x = op ? I_F : U_F;
+                return sem(x, sem(x, memb(*A, p), memb(*B, p)), memb(*C, p));
             });
+        };
+        l3.body = [&](long long i, Ctx &c) {
+            batched(
+                c, l3, i, [&](long long k, Rep &rp) { n3case(k, rp, c); }, n3cls);
         };
         if (!past_deadline()) {
             run_cases(l3);
